@@ -892,6 +892,356 @@ Qed.
 
 End Policy.
 
+(* ====================================================================== *)
+(* Part 0d: a generic upper layer.  Given an invariant X of worlds that only looks at the state map, the
+   process records, the clock reading and the trace, and that the process-level operations keep (as
+   hypotheses H_*: to be proved per invariant with the symbolic executor), X holds together with the core
+   invariant K after everything the main loop does in one pass (after the clock has been read).
+   `allowed` restricts which processes may be the target of a start request (all of them, or all but one). *)
+Definition inert3 (g : world -> world) : Prop :=
+  forall w, inertw w (g w) /\ sts (g w) = sts w /\ procs (g w) = procs w /\ now (g w) = now w /\
+            out (g w) = out w /\ pend (g w) = pend w.
+
+Ltac inert3_prim :=
+  let w := fresh "w" in
+  intros w; repeat match goal with |- context [if ?c then _ else _] => destruct c end;
+  unfold inertw; repeat split; cbn; first [lia | reflexivity].
+
+Section KX.
+Variable U : Z.
+Variable pconfs : list pconf.
+Variable gconfs : list gconf.
+Variable X : world -> Prop.
+Variable allowed : nat -> Prop.
+Notation cf := (Model.cf pconfs).
+Implicit Types P : world -> Prop.
+
+Definition def_ok (d : deferred) : Prop :=
+  match d with DAll _ DStart _ (Some l) _ _ => Forall allowed l | _ => True end.
+Definition IX (w : world) : Prop := X w /\ Forall def_ok (pend w).
+
+Definition kx {A} (P : world -> Prop) (m : Model.M A) (R : A -> Prop) : Prop :=
+  forall w, K w -> IX w -> P w -> exists a w', m w = (Some a, w') /\ K w' /\ IX w' /\ R a.
+Definition xp {A} (P : world -> Prop) (m : Model.M A) : Prop :=
+  forall w a w', K w -> X w -> P w -> m w = (Some a, w') -> X w'.
+Definition anyv {A} : A -> Prop := fun _ => True.
+
+Hypothesis X_emit : forall e w, nofork e -> X w -> X (set_out (e :: out w) w).
+Hypothesis X_modw : forall w w', sts w' = sts w -> procs w' = procs w -> now w' = now w -> out w' = out w -> X w -> X w'.
+Hypothesis H_transition : forall j, xp (fun _ => True) (Model.transition U pconfs j).
+Hypothesis H_stop : forall j s, killable s = true -> xp (fun w => sts w j = s) (Model.stop U pconfs j).
+Hypothesis H_give_up : forall j, xp (fun w => sts w j = BACKOFF) (Model.give_up U j).
+Hypothesis H_signal : forall j sg s, in_signallable_states s = true -> xp (fun w => sts w j = s) (Model.signal U j sg).
+Hypothesis H_rollback : forall j w0, xp (fun w => w = w0) (Model.rollback_adjust U pconfs j (now w0)).
+Hypothesis H_reap : forall fuel, xp (fun _ => True) (Model.reap U pconfs fuel).
+Hypothesis H_start : forall j wait, allowed j -> xp (fun _ => True) (Model.start_process U pconfs j wait).
+
+(* the operations on `pend` do not matter to X; a process-level operation does not touch `pend` *)
+Definition obsPend (w : world) := pend w.
+
+Lemma kx_of {A} P (m : Model.M A) : ipre P m -> xp P m -> quiet obsPend m -> kx P m anyv.
+Proof.
+  intros Hi Hx Hq w HK [HX HP] Pw. destruct (Hi w HK Pw) as (a & w' & E & K').
+  exists a, w'. split; [exact E | split; [exact K' | split; [|exact Logic.I]]].
+  split; [exact (Hx w a w' HK HX Pw E)|]. specialize (Hq w). rewrite E in Hq. unfold obsPend in Hq. cbn in Hq. rewrite Hq. exact HP.
+Qed.
+
+Lemma kx_weaken {A} (P : world -> Prop) (m : Model.M A) R : kx (fun _ => True) m R -> kx P m R.
+Proof. intros H w HK HI _. apply H; auto. Qed.
+Lemma kx_post {A} (P : world -> Prop) (m : Model.M A) (R R' : A -> Prop) :
+  kx P m R -> (forall a, R a -> R' a) -> kx P m R'.
+Proof. intros H HR w HK HI Pw. destruct (H w HK HI Pw) as (a & w' & E & K' & I' & Ra). exists a, w'. auto. Qed.
+Lemma kx_ret {A} P (a : A) (R : A -> Prop) : R a -> kx P (ret a) R.
+Proof. intros H w HK HI _. exists a, w. auto. Qed.
+Lemma kx_bind {A B} P (m : Model.M A) (k : A -> Model.M B) R R' :
+  kx P m R -> (forall a, R a -> kx (fun _ => True) (k a) R') -> kx P (bind m k) R'.
+Proof.
+  intros Hm Hk w HK HI Pw. destruct (Hm w HK HI Pw) as (a & w1 & E & K1 & I1 & Ra).
+  unfold bind. rewrite E. apply (Hk a Ra); auto.
+Qed.
+(* a read of the world: the continuation knows it runs in exactly that world *)
+Lemma kx_getw {B} P (k : world -> Model.M B) R :
+  (forall w0, K w0 -> IX w0 -> P w0 -> kx (fun w => w = w0) (k w0) R) -> kx P (bind getw k) R.
+Proof. intros H w HK HI Pw. unfold bind, getw. apply (H w HK HI Pw); auto. Qed.
+Lemma kx_getp {B} P i (k : proc -> Model.M B) R : (forall p, kx P (k p) R) -> kx P (bind (getp i) k) R.
+Proof. intros H w. unfold bind, getp. apply H. Qed.
+Lemma kx_gets {B} (P : world -> Prop) i (k : pstate -> Model.M B) R :
+  (forall s, kx (fun w => P w /\ sts w i = s) (k s) R) -> kx P (bind (gets i) k) R.
+Proof. intros H w HK HI Pw. unfold bind, gets. apply H; auto. Qed.
+Lemma kx_pre {A} (P P' : world -> Prop) (m : Model.M A) R : (forall w, P w -> P' w) -> kx P' m R -> kx P m R.
+Proof. intros HP H w HK HI Pw. apply H; auto. Qed.
+Lemma kx_ret_any {A} P (a : A) : kx P (ret a) anyv.
+Proof. apply kx_ret. exact Logic.I. Qed.
+Lemma kx_mapM {A} P (f : A -> Model.M unit) l :
+  (forall x, In x l -> kx (fun _ => True) (f x) anyv) -> kx P (mapM_ f l) anyv.
+Proof.
+  intros H. apply kx_weaken. induction l as [|x l IH]; cbn; [apply kx_ret; exact Logic.I|].
+  eapply kx_bind; [apply H; left; reflexivity | intros _ _; apply IH; intros y Hy; apply H; right; exact Hy].
+Qed.
+
+Lemma kx_emit P e : nofork e -> kx P (emit e) anyv.
+Proof.
+  intros He w HK [HX HP] _. exists tt, (set_out (e :: out w) w). split; [reflexivity|].
+  split; [eapply K_inert; [exact HK | repeat split; cbn; lia]|]. split; [|exact Logic.I].
+  split; [apply X_emit; assumption | exact HP].
+Qed.
+Lemma kx_modw P g : inert3 g -> kx P (modw g) anyv.
+Proof.
+  intros Hg w HK [HX HP] _. destruct (Hg w) as (I1 & e1 & e2 & e3 & e4 & e5).
+  exists tt, (g w). split; [reflexivity|]. split; [eapply K_inert; eassumption|]. split; [|exact Logic.I].
+  split; [eapply X_modw; eassumption | rewrite e5; exact HP].
+Qed.
+Lemma kx_set_pend P (l : world -> list deferred) :
+  (forall w, IX w -> P w -> Forall def_ok (l w)) -> kx P (modw (fun w => set_pend (l w) w)) anyv.
+Proof.
+  intros Hl w HK HI Pw. exists tt, (set_pend (l w) w). split; [reflexivity|].
+  split; [eapply K_inert; [exact HK | repeat split; cbn; lia]|]. split; [|exact Logic.I].
+  split; [eapply X_modw; [| | | |apply HI]; reflexivity | cbn; apply Hl; assumption].
+Qed.
+Lemma kx_set_exited P : kx P (modw set_exited) anyv.
+Proof.
+  intros w HK [HX HP] _. exists tt, (set_exited w). split; [reflexivity|].
+  split; [eapply K_inert; [exact HK | repeat split; cbn; lia]|]. split; [|exact Logic.I].
+  split; [|exact HP]. eapply (X_modw (set_out (EExitNow :: out w) w)); try reflexivity. apply X_emit; [exact Logic.I | exact HX].
+Qed.
+
+(* pend is not touched by the process-level operations *)
+Ltac pq :=
+  repeat match goal with
+    | |- quiet _ (ret _) => apply quiet_ret
+    | |- quiet _ (bind getw _) => apply quiet_getw; intros ?w0
+    | |- quiet _ (bind (gets _) _) => apply quiet_gets; intros ?s
+    | |- quiet _ (bind (getp _) _) => apply quiet_getp; intros ?p
+    | |- quiet _ (setp _ _) => unfold setp
+    | |- quiet _ (modp _ _) => unfold modp
+    | |- quiet _ (assert_in _ _ _) => unfold assert_in
+    | |- quiet _ (Model.change_state _ _ _ _) => unfold Model.change_state
+    | |- quiet _ (Model.move _ _ _ _ _ _ _) => unfold Model.move
+    | |- quiet _ (Model.kill_mark _ _ _ _) => unfold Model.kill_mark
+    | |- quiet _ (k_kill _ _) => unfold k_kill
+    | |- quiet _ (modw _) => qprim
+    | |- quiet _ (emit _) => qprim
+    | |- quiet _ (crash _) => qprim
+    | |- quiet _ (mapM_ _ _) => apply quiet_mapM; intros
+    | |- quiet _ _ => assumption
+    | |- quiet _ (if ?c then _ else _) => destruct c
+    | |- quiet _ (match ?x with _ => _ end) => destruct x
+    | |- quiet _ (bind _ _) => apply quiet_bind; [ | intros ? ]
+    end.
+
+Lemma qp_spawn i : quiet obsPend (Model.spawn U pconfs i).
+Proof. unfold Model.spawn. pq. Qed.
+Lemma qp_rollback i t : quiet obsPend (Model.rollback_adjust U pconfs i t).
+Proof. unfold Model.rollback_adjust. pq. Qed.
+Lemma qp_give_up i : quiet obsPend (Model.give_up U i).
+Proof. unfold Model.give_up. pq. Qed.
+Lemma qp_kill i sig : quiet obsPend (Model.kill U pconfs i sig).
+Proof. unfold Model.kill. pq. Qed.
+Lemma qp_stop i : quiet obsPend (Model.stop U pconfs i).
+Proof. unfold Model.stop. pose proof (qp_kill i). pq. Qed.
+Lemma qp_signal i sig : quiet obsPend (Model.signal U i sig).
+Proof. unfold Model.signal. pq. Qed.
+Lemma qp_finish i s : quiet obsPend (Model.finish U pconfs i s).
+Proof. unfold Model.finish. pose proof (qp_rollback i). pq. Qed.
+Lemma qp_transition i : quiet obsPend (Model.transition U pconfs i).
+Proof.
+  unfold Model.transition. pose proof (qp_rollback i). pose proof (qp_spawn i). pose proof (qp_give_up i).
+  pose proof (qp_kill i). pq.
+Qed.
+Lemma qp_reap fuel : quiet obsPend (Model.reap U pconfs fuel).
+Proof. induction fuel as [|f IH]; cbn; [apply quiet_ret|]. pose proof (fun i s => qp_finish i s). pq. Qed.
+Lemma qp_start_process i wait : quiet obsPend (Model.start_process U pconfs i wait).
+Proof.
+  unfold Model.start_process, reap_all. pose proof (qp_spawn i). pose proof (qp_reap 100). pose proof (qp_transition i). pq.
+Qed.
+
+(* ---------- leaves *)
+Lemma transition_kx j : kx (fun _ => True) (Model.transition U pconfs j) anyv.
+Proof. apply kx_of; [apply transition_ipre | apply H_transition | apply qp_transition]. Qed.
+Lemma stop_kx j s : killable s = true -> kx (fun w => sts w j = s) (Model.stop U pconfs j) anyv.
+Proof. intros Hs. apply kx_of; [apply stop_ipre; exact Hs | apply H_stop; exact Hs | apply qp_stop]. Qed.
+Lemma give_up_kx j : kx (fun w => sts w j = BACKOFF) (Model.give_up U j) anyv.
+Proof. apply kx_of; [apply give_up_ipre | apply H_give_up | apply qp_give_up]. Qed.
+Lemma signal_kx j sg s : in_signallable_states s = true -> kx (fun w => sts w j = s) (Model.signal U j sg) anyv.
+Proof. intros Hs. apply kx_of; [apply signal_ipre; exact Hs | apply H_signal; exact Hs | apply qp_signal]. Qed.
+Lemma rollback_kx j w0 : kx (fun w => w = w0) (Model.rollback_adjust U pconfs j (now w0)) anyv.
+Proof. apply kx_of; [apply ipre_weaken; apply rollback_ipre | apply H_rollback | apply qp_rollback]. Qed.
+Lemma reap_kx fuel : kx (fun _ => True) (Model.reap U pconfs fuel) anyv.
+Proof. apply kx_of; [apply reap_ipre | apply H_reap | apply qp_reap]. Qed.
+Lemma start_process_kx j wait : allowed j -> kx (fun _ => True) (Model.start_process U pconfs j wait) anyv.
+Proof. intros Ha. apply kx_of; [apply start_process_ipre | apply H_start; exact Ha | apply qp_start_process]. Qed.
+
+Ltac kxpre := eapply kx_pre; [cbv beta; intros ? ?; tauto|].
+Ltac kxstep :=
+  lazymatch goal with
+  | |- kx _ (ret _) anyv => apply kx_ret_any
+  | |- kx _ (ret _) ?R => first [is_evar R; apply kx_ret_any | apply kx_ret; try exact Logic.I]
+  | |- kx _ (bind getw _) _ => apply kx_getw; intros ?w0 ?HK0 ?HI0 ?HP0
+  | |- kx _ (bind (getp _) _) _ => apply kx_getp; intros ?p
+  | |- kx _ (bind (gets _) _) _ =>
+    apply kx_gets; let s := fresh "s" in intros s; destruct s;
+    cbn [in_running_states in_stopped_states in_signallable_states pstate_eqb negb andb orb pred_one]
+  | |- kx _ (emit _) _ => apply kx_emit; exact Logic.I
+  | |- kx _ (modw set_exited) _ => apply kx_set_exited
+  | |- kx _ (modw _) _ => apply kx_modw; inert3_prim
+  | |- kx _ (mapM_ _ _) _ => apply kx_mapM; intros
+  | |- kx _ (Model.stop _ _ _) _ => kxpre; apply stop_kx; reflexivity
+  | |- kx _ (Model.give_up _ _) _ => kxpre; apply give_up_kx
+  | |- kx _ (Model.signal _ _ _) _ => kxpre; apply signal_kx; reflexivity
+  | |- kx _ (Model.rollback_adjust _ _ _ (now _)) _ => kxpre; apply rollback_kx
+  | |- kx _ (Model.transition _ _ _) _ => apply kx_weaken; apply transition_kx
+  | |- kx _ (Model.reap _ _ _) _ => apply kx_weaken; apply reap_kx
+  | |- kx _ reap_all _ => apply kx_weaken; apply reap_kx
+  | |- kx _ (if ?c then _ else _) _ => destruct c
+  | |- kx _ (match ?x with _ => _ end) _ => destruct x
+  | |- kx _ (bind _ _) _ => eapply kx_bind; [ | intros ? _ ]
+  | |- kx _ _ _ => fail "no rule"
+  end.
+Ltac kxtac := repeat kxstep.
+
+Lemma stop_all_kx g : kx (fun _ => True) (Model.stop_all U pconfs gconfs g) anyv.
+Proof. unfold Model.stop_all. kxtac. Qed.
+Lemma handle_signal_kx : kx (fun _ => True) handle_signal anyv.
+Proof. unfold handle_signal. kxtac. Qed.
+Lemma start_onwait_kx i : kx (fun _ => True) (start_onwait i) anyv.
+Proof. unfold start_onwait. kxtac. Qed.
+Lemma stop_onwait_kx i : kx (fun _ => True) (Model.stop_onwait U pconfs i) anyv.
+Proof. unfold Model.stop_onwait. kxtac. Qed.
+Lemma stop_process_kx i wait : kx (fun _ => True) (Model.stop_process U pconfs i wait) anyv.
+Proof. unfold Model.stop_process. kxtac. Qed.
+Lemma signal_process_kx i sg ok : kx (fun _ => True) (Model.signal_process U pconfs i sg ok) anyv.
+Proof. unfold Model.signal_process. kxtac. Qed.
+
+Lemma poll_one_kx k i : kx (fun _ => True) (Model.poll_one U pconfs k i) anyv.
+Proof. destruct k; cbn [Model.poll_one]; [apply start_onwait_kx | apply stop_onwait_kx]. Qed.
+
+Lemma all_first_kx k wait l : (k = DStart -> Forall allowed l) ->
+  forall cbs res, kx (fun _ => True) (Model.all_first U pconfs k wait l cbs res) anyv.
+Proof.
+  induction l as [|x l IH]; intros Hl cbs res; cbn [Model.all_first]; [apply kx_ret_any|].
+  assert (Hl' : k = DStart -> Forall allowed l) by (intros E; specialize (Hl E); inversion Hl; assumption).
+  assert (Hcall : kx (fun _ => True) (Model.call_one U pconfs k wait x) anyv).
+  { destruct k; cbn [Model.call_one]; [apply start_process_kx; specialize (Hl eq_refl); inversion Hl; assumption
+                                      | apply stop_process_kx]. }
+  apply kx_gets. intros s. destruct (pred_one k s); [|apply kx_weaken; apply IH; exact Hl'].
+  eapply kx_bind; [apply kx_weaken; exact Hcall|]. intros c _. destruct c as [[| |]|]; apply IH; exact Hl'.
+Qed.
+
+Lemma all_poll_kx k l : forall cbs res, kx (fun _ => True) (Model.all_poll U pconfs k l cbs res) anyv.
+Proof.
+  induction l as [|x l IH]; intros cbs res; cbn [Model.all_poll]; [apply kx_ret_any|].
+  eapply kx_bind; [apply poll_one_kx|]. intros v _. destruct v as [[| |]|]; apply IH.
+Qed.
+
+Definition opt_ok (o : option deferred) : Prop := match o with Some d => def_ok d | None => True end.
+
+Lemma poll_deferred_kx d : def_ok d -> kx (fun _ => True) (Model.poll_deferred U pconfs d) opt_ok.
+Proof.
+  intros Hd. destruct d as [req k i | req k wait todo cbs res]; cbn [Model.poll_deferred].
+  - eapply kx_bind; [apply poll_one_kx|]. intros v _. destruct v.
+    + eapply kx_bind; [apply kx_emit; exact Logic.I|]. intros _ _. apply kx_ret. exact Logic.I.
+    + apply kx_ret. exact Logic.I.
+  - eapply (kx_bind _ _ _ anyv).
+    + destruct todo as [l|]; [|apply kx_ret_any]. apply all_first_kx. intros ->. exact Hd.
+    + intros [cbs1 res1] _. destruct cbs1 as [|c1 cbs1].
+      * eapply kx_bind; [apply kx_emit; exact Logic.I|]. intros _ _. apply kx_ret. exact Logic.I.
+      * eapply kx_bind; [apply all_poll_kx|]. intros [cbs2 res2] _. destruct cbs2.
+        -- eapply kx_bind; [apply kx_emit; exact Logic.I|]. intros _ _. apply kx_ret. exact Logic.I.
+        -- apply kx_ret. cbn. destruct k; exact Logic.I.
+Qed.
+
+Lemma poll_pending_kx l : Forall def_ok l -> forall keep, Forall def_ok keep ->
+  kx (fun _ => True) (Model.poll_pending U pconfs l keep) (Forall def_ok).
+Proof.
+  induction l as [|d l IH]; intros Hl keep Hk; cbn [Model.poll_pending]; [apply kx_ret; exact Hk|].
+  inversion Hl; subst. eapply kx_bind; [apply poll_deferred_kx; assumption|].
+  intros o Ho. destruct o as [d'|]; apply IH; try assumption.
+  apply Forall_app. split; [exact Hk | constructor; [exact Ho | constructor]].
+Qed.
+
+Lemma defer_now_kx d : def_ok d -> kx (fun _ => True) (Model.defer_now U pconfs d) anyv.
+Proof.
+  intros Hd. unfold Model.defer_now. eapply kx_bind; [apply poll_deferred_kx; exact Hd|].
+  intros o Ho. destruct o as [d'|]; [|apply kx_ret_any].
+  unfold add_pending. apply kx_set_pend. intros w [_ HP] _. apply Forall_app. split; [exact HP | constructor; [exact Ho | constructor]].
+Qed.
+
+Definition rpc_ok (r : rpc) : Prop :=
+  match r with
+  | RStart j _ => allowed j
+  | RStartGroup g _ => Forall allowed (procs_by_priority pconfs gconfs g)
+  | RStartAll _ => Forall allowed (all_procs_sorted pconfs gconfs)
+  | _ => True
+  end.
+Definition act_ok (a : act) : Prop := match a with ARpc _ r => rpc_ok r | _ => True end.
+
+Lemma do_rpc_kx req r : rpc_ok r -> kx (fun _ => True) (Model.do_rpc U pconfs gconfs req r) anyv.
+Proof.
+  intros Hr. unfold Model.do_rpc. apply kx_getw. intros w0 HK0 HI0 _. apply kx_weaken.
+  destruct r; cbn [rpc_ok] in Hr.
+  - eapply kx_bind; [apply start_process_kx; exact Hr|]. intros c _. destruct c; [apply kx_emit; exact Logic.I|].
+    apply defer_now_kx. exact Logic.I.
+  - eapply kx_bind; [apply stop_process_kx|]. intros c _. destruct c; [apply kx_emit; exact Logic.I|].
+    apply defer_now_kx. exact Logic.I.
+  - eapply kx_bind; [apply signal_process_kx|]. intros c _. destruct c; [apply kx_emit; exact Logic.I | apply kx_ret_any].
+  - destruct (mood w0 <? 1); [apply kx_emit; exact Logic.I|].
+    destruct (negb _); [apply kx_emit; exact Logic.I|]. apply defer_now_kx. exact Hr.
+  - destruct (mood w0 <? 1); [apply kx_emit; exact Logic.I|].
+    destruct (negb _); [apply kx_emit; exact Logic.I|]. apply defer_now_kx. exact Logic.I.
+  - destruct (mood w0 <? 1); [apply kx_emit; exact Logic.I|]. apply defer_now_kx. exact Hr.
+  - destruct (mood w0 <? 1); [apply kx_emit; exact Logic.I|]. apply defer_now_kx. exact Logic.I.
+  - kxtac.
+  - kxtac.
+Qed.
+
+Lemma do_act_kx a : act_ok a -> kx (fun _ => True) (Model.do_act U pconfs gconfs a) anyv.
+Proof.
+  intros Ha. destruct a; cbn [Model.do_act act_ok] in *.
+  - unfold child_dies. kxtac.
+  - unfold child_dies. kxtac.
+  - kxtac.
+  - kxtac.
+  - apply do_rpc_kx. exact Ha.
+  - apply kx_getw. intros w0 HK0 [_ HP0] _. apply kx_weaken.
+    eapply kx_bind; [apply kx_set_pend; intros; constructor|]. intros _ _.
+    eapply kx_bind; [apply poll_pending_kx; [exact HP0 | constructor]|]. intros keep Hkeep.
+    apply kx_set_pend. intros w [_ HP] _. apply Forall_app. split; assumption.
+Qed.
+
+Lemma loop_head_kx : kx (fun _ => True) (Model.loop_head U pconfs gconfs) anyv.
+Proof. unfold Model.loop_head. pose proof stop_all_kx. kxtac; apply kx_weaken; auto. Qed.
+Lemma phase2_kx : kx (fun _ => True) (Model.phase2 gconfs) anyv.
+Proof. unfold Model.phase2. kxtac. Qed.
+
+Definition pass_rest (o : passop) : Model.M unit :=
+  bind (mapM_ (Model.do_act U pconfs gconfs) (p_acts o)) (fun _ =>
+  bind (mapM_ (transition_group U pconfs gconfs) (sorted_groups gconfs)) (fun _ =>
+  bind reap_all (fun _ => bind handle_signal (fun _ => bind (Model.phase2 gconfs) (fun _ =>
+  Model.loop_head U pconfs gconfs))))).
+
+Lemma pass_rest_kx o : Forall act_ok (p_acts o) -> kx (fun _ => True) (pass_rest o) anyv.
+Proof.
+  intros Ho. unfold pass_rest.
+  eapply kx_bind; [apply kx_mapM; intros a Ha; apply do_act_kx; rewrite Forall_forall in Ho; auto|]. intros _ _.
+  eapply kx_bind; [apply kx_mapM; intros g _; unfold transition_group; apply kx_mapM; intros j _; apply transition_kx|]. intros _ _.
+  eapply kx_bind; [apply reap_kx|]. intros _ _.
+  eapply kx_bind; [apply handle_signal_kx|]. intros _ _.
+  eapply kx_bind; [apply phase2_kx|]. intros _ _. apply loop_head_kx.
+Qed.
+
+(* one pass: the clock is read (set_pass), then everything else *)
+Theorem pass_kx o w :
+  Forall act_ok (p_acts o) -> K w -> IX (set_pass (p_now o) (p_forkq o) (p_killq o) w) ->
+  exists w', Model.do_pass U pconfs gconfs o w = (Some tt, w') /\ K w' /\ IX w'.
+Proof.
+  intros Ho HK HI.
+  assert (K1 : K (set_pass (p_now o) (p_forkq o) (p_killq o) w)) by (eapply K_inert; [exact HK | repeat split; cbn; lia]).
+  destruct (pass_rest_kx o Ho _ K1 HI Logic.I) as ([] & w' & E & K' & I' & _).
+  exists w'. split; [|split; assumption]. exact E.
+Qed.
+
+End KX.
+
 (* hypotheses satisfiable: a run with two forks (autostart, then restart after an unexpected exit) *)
 Example fork_only_from_spawn_states_example :
   let pc := [mkConf 1 3 10 15 999 true ARUnexpected [0] false false CmdOk 0%nat] in
